@@ -17,8 +17,11 @@ def keyspec(i, flavour):
         return 1000 + i
     if flavour == "float":
         return 1000.5 + i
+    if flavour in ("dashed", "collide"):
+        # "x-1" style names as collections produce them; key_split / the default fused-key renamer work on these
+        return f"{'abcdefghijklmnop'[i % 16]}-1"
     if flavour == "mixed":
-        return [f"k{i}", ["x", i, 0], 1000 + i, f"k{i}"][i % 4]
+        return [f"k{i}", ["x", i, 0], 1000 + i, 1000.5 + i, f"k{i}"][i % 5]
     raise ValueError(flavour)
 
 
@@ -66,6 +69,12 @@ def dag_spec(shape, style="legacy", keyflavour="str"):
     nodes = []
     for i, s in enumerate(shape):
         nodes.append({"k": keyspec(i, keyflavour), "body": body_for(s["kind"], s["deps"], i)})
+    if keyflavour == "collide" and len(nodes) >= 3:
+        # one key is spelled like the name the default renamer gives to a fused chain of two OTHER nodes
+        # (fusing "a-1" <- "b-1" yields "a-b-1"): renaming must not clobber it
+        m = len(nodes) - 1
+        i, j = [x for x in range(len(nodes)) if x != m][:2]
+        nodes[m]["k"] = f"{'abcdefghijklmnop'[i]}-{'abcdefghijklmnop'[j]}-1"
     return {"style": style, "nodes": nodes}
 
 
@@ -191,7 +200,7 @@ def expr_strategy(navail, style, depth=3, allow_kwargs=None, allow_rawdict=True,
 def rich_graph(draw, min_nodes=1, max_nodes=8, styles=("legacy", "taskspec"), with_external=False, extras=False):
     n = draw(st.integers(min_nodes, max_nodes))
     style = draw(st.sampled_from(list(styles)))
-    flavour = draw(st.sampled_from(["str", "str", "tuple", "int", "mixed"]))
+    flavour = draw(st.sampled_from(["str", "str", "tuple", "int", "float", "mixed"]))
     ext = {}
     if with_external and draw(st.booleans()):
         ext = {"a": draw(_plain), "b": draw(_plain)}
@@ -257,5 +266,19 @@ def shape_graph(draw, min_nodes=2, max_nodes=12):
             kind = draw(st.sampled_from(["task", "task", "task", "list"]))
         shape.append({"kind": kind, "deps": deps})
     style = draw(st.sampled_from(["legacy", "taskspec"]))
-    flavour = draw(st.sampled_from(["str", "tuple", "mixed"]))
+    flavour = draw(st.sampled_from(["str", "tuple", "mixed", "float", "dashed", "collide"]))
     return dag_spec(shape, style, flavour)
+
+
+def mixed(g, which=("list", "ref")):
+    """Task objects for the call nodes, plain legacy values for alias / list (/ data) nodes: what e.g.
+    da.store builds (a plain list of keys on top of a graph of Task objects)."""
+    import copy
+
+    g = copy.deepcopy(g)
+    g["style"] = "taskspec"
+    for n in g["nodes"]:
+        if any(k in n["body"] for k in which):
+            n["style"] = "legacy"
+    g["mixed"] = True
+    return g
